@@ -78,7 +78,8 @@ def run_one(check_id, name, expected, payload):
         ok = not extra and ctx.evals > 0
         verdict = "SILENT" if ok else f"UNEXPECTED {extra}"
     else:
-        hit = [k for k in keys if k.startswith(tuple(expected))]
+        baseline = C16_BASELINE if check_id == "C16" else ()
+        hit = [k for k in keys if k.startswith(tuple(expected)) and k not in baseline]
         ok = bool(hit)
         verdict = f"CAUGHT {hit}" if ok else "MISSED"
     print(f"[{check_id}] {name:32s} {verdict}  (evals {ctx.evals}, all keys {keys}, inconclusive {len(ctx.inconclusive)}, {time.time() - t0:.0f}s)", flush=True)
